@@ -8,7 +8,11 @@ Record stepobs := mkStepObs {
   so_tables : tables;                 (* content of the database file after the step *)
   so_mem : counters;                  (* FeatureDB._autoincrements of the open object *)
   so_bak : option tables;             (* content of <dbfn>.bak, if the file exists *)
-  so_out : result unit }.
+  so_out : result unit;
+  (* through the SAME long-lived FeatureDB object, after the step: *)
+  so_lookups : list (str * result row);   (* db[id] for a fixed pool of present and absent ids *)
+  so_counts : list (option str * Z);      (* count_features_of_type(t); None = all *)
+  so_iter_ids : list str }.               (* ids yielded by all_features() *)
 
 Inductive case :=
 | CHist (init : list row)            (* features the database was created from (create_db, ids from ID) *)
@@ -27,9 +31,28 @@ Definition bak_matches (vals_as_sets : bool) (m : option ist) (o : option tables
   | _, _ => false
   end.
 
+Definition lookup_matches (rows : list row) (x : str * result row) : bool :=
+  match find_id (fst x) rows, snd x with
+  | Some r, Ok o => row_eqb true r o
+  | None, Err ENotFound => true
+  | _, _ => false
+  end.
+
+Definition count_matches (rows : list row) (x : option str * Z) : bool :=
+  (Z.of_nat (length (match fst x with
+                     | None => rows
+                     | Some t => filter (fun r => str_eqb (r_ftype r) t) rows
+                     end)) =? snd x).
+
+(* the object's own view (look-ups, counts, iteration) agrees with the file's content *)
+Definition api_matches (d : ist) (o : stepobs) : bool :=
+  forallb (lookup_matches (s_rows d)) (so_lookups o) && forallb (count_matches (s_rows d)) (so_counts o)
+  && lstr_eqb (map r_id (s_rows d)) (so_iter_ids o).
+
 Definition step_matches (ms : mstate * result unit) (o : stepobs) : bool :=
   st_matches true (m_disk (fst ms)) (so_tables o) && counters_seteq (m_mem (fst ms)) (so_mem o)
-  && bak_matches true (m_bak (fst ms)) (so_bak o) && out_eqb (snd ms) (so_out o).
+  && bak_matches true (m_bak (fst ms)) (so_bak o) && out_eqb (snd ms) (so_out o)
+  && api_matches (m_disk (fst ms)) o.
 
 Fixpoint all_match (ms : list (mstate * result unit)) (os : list stepobs) : bool :=
   match ms, os with
